@@ -188,7 +188,9 @@ pub fn exec(reg: &Registry, st: &mut State, line: &str) -> Outcome {
                     let mut o = match r {
                         Ok((consumed, dl)) => {
                             let mut o = out(format!("ok {consumed} {dl}"));
-                            if consumed > bytes.len() || dl != consumed {
+                            // `AccountDiscriminant::data_len` is the inner type's (it excludes the prefix)
+                            let dlen = if let Shape::Disc(d, _) = &shape { d.len() } else { 0 };
+                            if consumed > bytes.len() || dl + dlen != consumed {
                                 o.fails.push(("extent_outside_input".into(), format!("consumed {consumed} data_len {dl} input {}", bytes.len())));
                             }
                             o
@@ -200,8 +202,9 @@ pub fn exec(reg: &Registry, st: &mut State, line: &str) -> Outcome {
                 }
                 "dec" => {
                     let (r, an) = guarded(|| {
-                        let (n, _) = t.ptr(&bytes)?;
+                        // `owned` first: its error class is the one `UnsizedType::owned` reports
                         let v = t.owned(&bytes)?;
+                        let (n, _) = t.ptr(&bytes)?;
                         Ok((n, v))
                     });
                     let mut o = match r {
@@ -303,7 +306,8 @@ fn op_enc(t: &dyn DynType, shape: &Shape, v: &crate::sx::Val, cap: Option<usize>
                     o.fails.push(("roundtrip_mismatch".into(), format!("owned(from_owned(v)) = {:?}", r2.map(|x| show_val(shape, &x)))));
                 }
                 let (r3, _) = guarded(|| t.ptr(&written));
-                if r3 != Ok((written.len(), written.len())) {
+                let dlen = if let Shape::Disc(d, _) = shape { d.len() } else { 0 };
+                if r3 != Ok((written.len(), written.len() - dlen.min(written.len()))) {
                     o.fails.push(("size_accounting".into(), format!("get_ptr on the written bytes covers {:?} of {}", r3, written.len())));
                 }
                 o
